@@ -72,12 +72,15 @@ SetObj(v) == At("SetObj") /\ Do("SetObj", v, v, tf, <<>>, FALSE)
 SetPrior(v) == At("SetPrior") /\ Do("SetObj", v, v, tf, <<>>, FALSE)
 FreshObj == At("FreshObj") /\ Do("FreshObj", NoArg, M.zero, tf, <<>>, FALSE)
 \* "an object that carries the attribute types of the schema and no values": the plain one (an empty Attrs map) and, for
-\* the zero and the fully set struct, the three other forms a caller holds before anything was written: a nil Attrs map,
-\* an object flagged unknown, an object flagged null (the state of a resource that does not exist yet)
+\* the zero and the fully set struct, the other forms a caller holds before anything was written: a nil Attrs map,
+\* an object flagged unknown, an object flagged null (the state of a resource that does not exist yet), each of the
+\* flagged ones with a nil and with an allocated, empty Attrs map
 EmptyChoices ==
   {EmptyObject(M.tt.at)} \cup
   (IF EmptyMode = "flags" /\ obj \in {M.zero, RichOf(M, UnitsOf(M), M.zero)}
-   THEN {VObj(FALSE, FALSE, EmptyFn, M.tt.at, TRUE), VObj(FALSE, TRUE, EmptyFn, M.tt.at, TRUE), VObj(TRUE, FALSE, EmptyFn, M.tt.at, TRUE)}
+   THEN {VObj(FALSE, FALSE, EmptyFn, M.tt.at, TRUE), VObj(FALSE, TRUE, EmptyFn, M.tt.at, TRUE), VObj(TRUE, FALSE, EmptyFn, M.tt.at, TRUE),
+         \* ... and the flagged forms with an allocated, empty Attrs map
+         VObj(FALSE, TRUE, EmptyFn, M.tt.at, FALSE), VObj(TRUE, FALSE, EmptyFn, M.tt.at, FALSE)}
    ELSE {})
 NewEmpty == At("NewEmpty") /\ \E e \in EmptyChoices : Do("NewEmpty", e, obj, e, <<>>, FALSE)
 Load(e, p) == At(e) /\ Do(e, p, obj, p, <<>>, FALSE)
@@ -88,7 +91,18 @@ CopyFrom == At("CopyFrom") /\ LET r == FromMsg(Mi, tf, obj) IN Do("CopyFrom", No
 ObjChoices == CASE ObjMode = "prior" -> PriorVals(M, Deep)
                  [] ObjMode = "boundary" -> BoundaryVals(M)
                  [] OTHER -> MsgVals(M, Deep, FALSE)
-PlanChoices == {DecodedForm(p) : p \in {q \in MsgPlans(M, FALSE, FALSE) : C08Plan(M, q)}}
+\* a plan as the framework decodes it and, where it holds a known EMPTY list / map, also the form in which provider code
+\* (defaults, plan modifiers) writes such a collection: Elems nil instead of allocated.  The same Terraform value.
+RECURSIVE NilEmptyElems(_)
+NilEmptyElems(tv) ==
+  CASE tv.k = "obj" -> IF Known(tv) THEN [tv EXCEPT !.attrs = [n \in DOMAIN tv.attrs |-> NilEmptyElems(tv.attrs[n])]] ELSE tv
+    [] tv.k = "list" -> IF ~Known(tv) THEN tv ELSE IF tv.elems = <<>> THEN [tv EXCEPT !.elemsnil = TRUE]
+                        ELSE [tv EXCEPT !.elems = [i \in DOMAIN tv.elems |-> NilEmptyElems(tv.elems[i])]]
+    [] tv.k = "map" -> IF ~Known(tv) THEN tv ELSE IF DOMAIN tv.mels = {} THEN [tv EXCEPT !.elemsnil = TRUE]
+                       ELSE [tv EXCEPT !.mels = [key \in DOMAIN tv.mels |-> NilEmptyElems(tv.mels[key])]]
+    [] OTHER -> tv
+PlanChoices == LET base == {DecodedForm(p) : p \in {q \in MsgPlans(M, FALSE, FALSE) : C08Plan(M, q)}}
+               IN base \cup {NilEmptyElems(p) : p \in base}
 RawChoices == CASE RawMode = "corrupt" -> Corrupted(M, Deep)
                 [] RawMode = "reduced" -> Reduced(M, Deep)
                 [] OTHER -> MsgPlans(M, TRUE, FALSE)
